@@ -300,13 +300,18 @@ GOOD_LOCS = [
     ("http://[2001:db8::10]:80/desc.xml", ADDR6),
     ("http://[fe80::1]:80/desc.xml", ADDR6LL),     # adjusted to [fe80::1%3] by get_adjusted_url
     ("https://tv.example:443/d", ADDR4),             # no ip version
-    ("http://127.0.0.2:80/desc.xml", ADDR4),         # accepted by the code (DESIGN §7 out-of-domain note)
+    ("http://[::ffff:10.2.3.4]:80/m", ADDR6),         # embedded IPv4 (IPv4-mapped, not loopback / link-local)
     ("http://[2001:db8::11]/x", ADDR6),
     ("http://[2001:db8:0:1:2:3:4:5]:8080/full", ADDR6),   # full form
     ("http://[1:2:3:4:5:6:7::]/t", ADDR6),                # trailing ::
     ("http://[::2:3]/l", ADDR6),                          # leading ::
-    ("http://[1::2:3:4:5:6:7:8]/bad", ADDR6),             # 8 hextets with :: -> ip_address refuses -> no ip version
 ]
+# locations the LIBRARY accepts (they start with "http" and contain none of its three substrings) but the property text
+# forbids or cannot read as an http(s) URL with a host: open finding F03a / F04a.  Only used in dedicated histories.
+TEXT_BAD_LOCS = ["http://127.0.0.2:80/d", "http://user@127.0.0.1/d", "http://[0:0:0:0:0:0:0:1]/d", "http://[::0001]/d",
+                 "http://localhost/d", "http://user@169.254.7.7/d", "http://[::ffff:169.254.7.7]/d", "httpx://192.168.1.7/d",
+                 "http-but-not-a-url", "http://[fe80::1/", "http://127.9.9.9:1/", "http://[::ffff:127.0.0.1]/", "http:///nohost",
+                 "http://[1::2:3:4:5:6:7:8]/bad"]   # the last: 8 hextets with `::` — ip_address refuses, urlsplit raises
 BAD_LOCS = ["http://127.0.0.1:80/d", "http://[::1]:80/d", "http://169.254.7.7/d", "ftp://192.168.1.10/d", "", "xhttp://192.168.1.10/",
             "HTTP://192.168.1.10/"]
 CACHE = [None, "max-age=1", "max-age=5", "max-age=1800", "max-age=3600", "max-age=7200", "max-age=86400", "max-age=1000000", "max-age = 5", "MAX-AGE=7", "no-cache", "max-age=0",
@@ -405,9 +410,9 @@ def rand_invalid(rng, ts):
     if c == 4:
         return mk_notify(ts, nts, udn, None, loc, addr, cache, [["USN", udn]])    # no NT
     if c == 5:
-        return mk_search(ts, udn, ty, rng.choice(BAD_LOCS), addr, cache, [])
+        return mk_search(ts, udn, ty, rng.choice(BAD_LOCS), ADDR4, cache, [])  # not from a scoped sender: see f03a_history
     if c == 6:
-        return mk_notify(ts, nts, udn, ty, rng.choice(BAD_LOCS), addr, cache, [])
+        return mk_notify(ts, nts, udn, ty, rng.choice(BAD_LOCS), ADDR4, cache, [])
     if c == 7:
         return mk_search(ts, udn, ty, None, addr, cache, [])                       # no LOCATION
     if c == 8:
@@ -482,6 +487,27 @@ def many_devices_history(rng, ndev: int) -> List[Any]:
         else:
             ops.append(mk_search(ts, f"uuid:many-{i:04d}", TYPES[0], f"http://10.{i // 250}.{i % 250}.7:80/d",
                                  [f"10.{i // 250}.{i % 250}.7", 1900], "max-age=1800", []))
+    return ops
+
+
+def f03a_history(rng) -> List[Any]:
+    """one or two messages whose location the library accepts and the text forbids (open finding F03a / F04a)"""
+    ts = rng.randrange(0, 5) * SEC
+    loc = rng.choice(TEXT_BAD_LOCS)
+    addr = ADDR4
+    if rng.random() < 0.15:
+        # an IPv4 link-local location announced by a scoped IPv6 sender is rewritten by get_adjusted_url to
+        # http://[169.254.7.7%3]/d, which no longer contains the substring "://169.254" and is accepted
+        loc, addr = "http://169.254.7.7/d", ADDR6LL
+    udn = rng.choice(UDNS)
+    ty = rng.choice(TYPES)
+    ops = []
+    if rng.random() < 0.5:
+        ops.append(mk_search(ts, rng.choice(UDNS), ty, *GOOD_LOCS[0], "max-age=1800", []))
+    if rng.random() < 0.5:
+        ops.append(mk_search(ts + SEC, udn, ty, loc, addr, "max-age=1800", []))
+    else:
+        ops.append(mk_notify(ts + SEC, rng.choice(["ssdp:alive", "ssdp:update"]), udn, ty, loc, addr, "max-age=1800", []))
     return ops
 
 
@@ -573,6 +599,15 @@ CORPUS += [
              mk_search(3 * SEC, UDNS[0], TYPES[0], *GOOD_LOCS[0], "max-age=5", []), ["purge", 6 * SEC],
              mk_notify(7 * SEC, "ssdp:update", UDNS[0], TYPES[0], *GOOD_LOCS[0], "max-age=5", []),
              mk_notify(8 * SEC, "ssdp:update", UDNS[0], TYPES[0], *GOOD_LOCS[0], "max-age=5", []), ["purge0", 12 * SEC]]},
+    # URLs on which the URL layer of the model once differed from ip_version_from_location (found by the C02 engineer):
+    # embedded IPv4, TAB inside the URL (urlsplit removes it), both as second locations of a device known at IPv6 / IPv4
+    {"ops": [mk_search(0, UDNS[0], TYPES[0], "http://[2001:db8::10]:80/desc.xml", ADDR6, "max-age=1800", []),
+             mk_search(1 * SEC, UDNS[0], TYPES[0], "http://[::ffff:10.2.3.4]/", ADDR6, "max-age=1800", []),
+             mk_search(2 * SEC, UDNS[0], TYPES[0], "http://[fe80::1\t]/", ADDR6, "max-age=1800", []),
+             mk_search(3 * SEC, UDNS[0], TYPES[0], "http://[fe80::1]:80/a\tb", ADDR6, "max-age=1800", []),
+             mk_search(4 * SEC, UDNS[1], TYPES[0], "http://192.168.1.10:80/desc.xml", ADDR4, "max-age=1800", []),
+             mk_search(5 * SEC, UDNS[1], TYPES[0], "http://[::ffff:10.2.3.4]/", ADDR6, "max-age=1800", []),
+             mk_search(6 * SEC, UDNS[1], TYPES[0], "http://u:p@192.168.1.12:80/x", ADDR4, "max-age=1800", [])]},
     # timestamps at datetime.min, equal and backwards
     {"ops": [mk_search(TMIN, UDNS[0], TYPES[0], *GOOD_LOCS[0], "max-age=5", []),
              mk_search(TMIN, UDNS[1], TYPES[0], *GOOD_LOCS[1], None, []),
